@@ -33,6 +33,40 @@ type WriteOut struct {
 	Marked bool
 	// Generated counts the blocks written out.
 	Generated int
+
+	// BodyMarks: for the body of every block of the write-out (static or
+	// generated, at every depth) the marks of the for_each collections of all
+	// the dynamic blocks that generated it or an enclosing block. Everything
+	// inside a generated block exists only because of the collection, so it
+	// "derives" from it; a body that is not inside any block generated from a
+	// marked collection has no entry.
+	BodyMarks map[*sg.Body]cty.ValueMarks
+	// MarkSets lists the distinct non-empty sets of BodyMarks (as sorted mark
+	// names joined by "+") in order of first occurrence.
+	MarkSets []string
+	// Placeholders (Options.Placeholder only): the outermost blocks written
+	// out for an unknown for_each: the top-level block type they sit under and
+	// the marks of their for_each collection (with those of the enclosing ones).
+	Placeholders []Placeholder
+	// Unspecified: the documentation does not say whether the body can be
+	// written out (a label that is marked only because an *enclosing* dynamic
+	// block iterates over a marked collection).
+	Unspecified string
+}
+
+// Placeholder describes one block standing for an unknown number of blocks.
+type Placeholder struct {
+	Top   string
+	Marks cty.ValueMarks
+}
+
+// Options of ExpandWith.
+type Options struct {
+	// Placeholder: a dynamic block whose for_each is unknown is written out the
+	// way ext/dynblock/README.md describes it: "a single dynamic block whose
+	// iterator key and value are both unknown values of the dynamic
+	// pseudo-type" (without it such a dynamic block is left out).
+	Placeholder bool
 }
 
 type binding struct {
@@ -42,7 +76,53 @@ type binding struct {
 
 type expander struct {
 	out  *WriteOut
+	opt  Options
 	next int
+}
+
+func unionMarks(a, b cty.ValueMarks) cty.ValueMarks {
+	if len(a) == 0 && len(b) == 0 {
+		return nil
+	}
+	out := make(cty.ValueMarks, len(a)+len(b))
+	for m := range a {
+		out[m] = struct{}{}
+	}
+	for m := range b {
+		out[m] = struct{}{}
+	}
+	return out
+}
+
+// MarksKey names a mark set: the sorted mark names joined by "+".
+func MarksKey(m cty.ValueMarks) string {
+	var names []string
+	for k := range m {
+		names = append(names, fmt.Sprint(k))
+	}
+	sort.Strings(names)
+	out := ""
+	for i, n := range names {
+		if i > 0 {
+			out += "+"
+		}
+		out += n
+	}
+	return out
+}
+
+func (x *expander) record(b *sg.Body, m cty.ValueMarks) {
+	if len(m) == 0 {
+		return
+	}
+	x.out.BodyMarks[b] = m
+	k := MarksKey(m)
+	for _, have := range x.out.MarkSets {
+		if have == k {
+			return
+		}
+	}
+	x.out.MarkSets = append(x.out.MarkSets, k)
 }
 
 // Elements lists the (key, value) pairs of a known, non-null collection in
@@ -82,9 +162,14 @@ func Elements(coll cty.Value) (keys, vals []cty.Value) {
 // expressions are evaluated in (the variables of the context given to
 // dynblock.Expand).
 func Expand(body *sg.Body, env map[string]cty.Value) *WriteOut {
-	out := &WriteOut{Vars: map[string]cty.Value{}}
-	x := &expander{out: out}
-	out.Body = x.body(body, env, nil, "")
+	return ExpandWith(body, env, Options{})
+}
+
+// ExpandWith is Expand with options.
+func ExpandWith(body *sg.Body, env map[string]cty.Value, opt Options) *WriteOut {
+	out := &WriteOut{Vars: map[string]cty.Value{}, BodyMarks: map[*sg.Body]cty.ValueMarks{}}
+	x := &expander{out: out, opt: opt}
+	out.Body = x.body(body, env, nil, "", nil, false)
 	return out
 }
 
@@ -114,7 +199,9 @@ func rewrite(e sg.Expr, scope []binding) sg.Expr {
 	return e
 }
 
-func (x *expander) body(b *sg.Body, env map[string]cty.Value, scope []binding, top string) *sg.Body {
+// body writes out b. derived: the marks of the for_each collections of the
+// enclosing generated blocks; inPlaceholder: inside a placeholder block.
+func (x *expander) body(b *sg.Body, env map[string]cty.Value, scope []binding, top string, derived cty.ValueMarks, inPlaceholder bool) *sg.Body {
 	nb := &sg.Body{}
 	if b == nil {
 		return nb
@@ -128,7 +215,9 @@ func (x *expander) body(b *sg.Body, env map[string]cty.Value, scope []binding, t
 			t = bl.Type
 		}
 		if bl.Dyn == nil {
-			nb.Blocks = append(nb.Blocks, sg.Block{Type: bl.Type, Labels: append([]string(nil), bl.Labels...), Body: x.body(bl.Body, env, scope, t)})
+			sb := x.body(bl.Body, env, scope, t, derived, inPlaceholder)
+			x.record(sb, derived)
+			nb.Blocks = append(nb.Blocks, sg.Block{Type: bl.Type, Labels: append([]string(nil), bl.Labels...), Body: sb})
 			continue
 		}
 		// for_each: evaluated in the enclosing scope (outer iterators visible, its own not)
@@ -151,13 +240,24 @@ func (x *expander) body(b *sg.Body, env map[string]cty.Value, scope []binding, t
 				continue
 			}
 			x.out.Unknown = append(x.out.Unknown, t)
-			continue
-		}
-		if !coll.CanIterateElements() {
+			if !x.opt.Placeholder {
+				continue
+			}
+		} else if !coll.CanIterateElements() {
 			x.undefined("for_each-not-iterable")
 			continue
 		}
-		keys, vals := Elements(coll)
+		inner := unionMarks(derived, marks)
+		var keys, vals []cty.Value
+		placeholder := !coll.IsKnown()
+		if placeholder {
+			keys, vals = []cty.Value{cty.DynamicVal}, []cty.Value{cty.DynamicVal}
+			if !inPlaceholder {
+				x.out.Placeholders = append(x.out.Placeholders, Placeholder{Top: t, Marks: inner})
+			}
+		} else {
+			keys, vals = Elements(coll)
+		}
 		for i := range keys {
 			name := fmt.Sprintf("e%d", x.next)
 			x.next++
@@ -183,6 +283,17 @@ func (x *expander) body(b *sg.Body, env map[string]cty.Value, scope []binding, t
 					bad = true
 					break
 				}
+				if len(derived) > 0 && x.out.Unspecified == "" {
+					// the same label with the iterator carrying the marks of the enclosing collections too
+					env3 := make(map[string]cty.Value, len(env2))
+					for k, v := range env2 {
+						env3[k] = v
+					}
+					env3[bl.IterName()] = cty.ObjectVal(map[string]cty.Value{"key": keys[i].WithMarks(inner), "value": vals[i].WithMarks(inner)})
+					if lv3, ok := Eval(le, env3); ok && lv3.IsMarked() {
+						x.out.Unspecified = "label-marked-through-enclosing-collection"
+					}
+				}
 				sv, err := convert.Convert(lv, cty.String)
 				if err != nil || sv.IsNull() || !sv.IsKnown() {
 					x.undefined("label-not-a-known-string")
@@ -194,8 +305,12 @@ func (x *expander) body(b *sg.Body, env map[string]cty.Value, scope []binding, t
 			if bad {
 				continue
 			}
-			x.out.Generated++
-			nb.Blocks = append(nb.Blocks, sg.Block{Type: bl.Type, Labels: labels, Body: x.body(bl.Body, env2, scope2, t)})
+			if !placeholder {
+				x.out.Generated++
+			}
+			gb := x.body(bl.Body, env2, scope2, t, inner, inPlaceholder || placeholder)
+			x.record(gb, inner)
+			nb.Blocks = append(nb.Blocks, sg.Block{Type: bl.Type, Labels: labels, Body: gb})
 		}
 	}
 	return nb
